@@ -5,11 +5,11 @@ import z3
 from sx import core as S, env as E, pl, plh, families as F
 
 PROPERTY = "C03"
-REGIONS = ["override-present", "negative-sign", "integer-leaf", "generated-id-node"]
+REGIONS = ["override-present", "negative-sign", "integer-leaf", "generated-id-node", "value-outside-declared-box"]
 BOUNDS = ("PL family skeletons (<=7 compounds, depth<=3, <=6 leaves); thresholds |v|<=2^20 and signs symbolic on "
           "explicitly named AtLeast/AtMost nodes; integer-leaf boxes symbolic within [-32768,32767]; leaf values "
           "symbolic inside their box; <=2 sub-proposition overrides (presence and 0/1 value symbolic)")
-OUTSIDE = ("larger skeletons; leaf values outside the declared box; non-integer values; symbolic thresholds on "
+OUTSIDE = ("larger skeletons; leaf values beyond +-2^20; non-integer values; symbolic thresholds on "
            "generated-id nodes (M6); non-constant overrides of sub-proposition ids")
 FAMILY = "curated PL skeletons + VERIF_SEED-driven random skeletons, each under a seeded leaf-name assignment and value-form assignment"
 ASSUMPTIONS = ["M4 int shadow (proxy accepted as int)", "M5 structural hash tokens", "M6 explicit ids wherever a threshold is symbolic",
@@ -34,6 +34,10 @@ def instantiations(tier, seed):
         ids = pl.explicit_ids(m)
         ov = rng.sample(ids, min(len(ids), 2)) if (k % 2 == 0) else []
         out.append({"model": m, "forms": forms, "override": ov, "ovform": FORMS[(k + 1) % 3]})
+        if k % 3 == 0:
+            # the interpretation wins over the declared bounds (documented: variable("a", bounds=(1,1)).evaluate({"a": 0}) == (0,0)):
+            # leaf values free in [-2^20, 2^20] whatever the box, boxes may be degenerate
+            out.append({"model": m, "forms": forms, "override": [], "ovform": "int", "outbox": True})
     # oracle mutants: must be refuted
     base = F.symbolize(F.AL(2, F.a(), F.i(), F.AL(1, F.b(), F.c(), id="B", sign=1), id="A", sign=1))
     for mu in ("ge_to_gt", "ignore_sign", "ignore_override"):
@@ -57,7 +61,7 @@ def run_inst(spec, run):
 
     def fn(ctx):
         env = plh.sym_env(ctx, model_spec)
-        vals = plh.leaf_syms(ctx, model_spec, env)
+        vals = plh.leaf_syms(ctx, model_spec, env, inbox=not spec.get("outbox"))
         m1 = pl.build(ns, model_spec, env)
         m2 = pl.build(ns, model_spec, env)
         zvals = {k: v.e for k, v in vals.items()}
@@ -113,6 +117,8 @@ def run_inst(spec, run):
             run.region("integer-leaf")
         if res["gen"]:
             run.region("generated-id-node")
+        if spec.get("outbox"):
+            run.region("value-outside-declared-box")
         r, ref = res["r"], res["ref"]
         viol = []
         for nid, bnd in r.items():
